@@ -43,7 +43,7 @@ func params(prop, tier string) tierParams {
 	case "C14/thorough":
 		return tierParams{Budget: 10 * time.Minute, K: 8}
 	case "C19/quick":
-		return tierParams{Cases: 12800, Budget: 150 * time.Second, K: 3}
+		return tierParams{Cases: 25600, Budget: 150 * time.Second, K: 3}
 	case "C19/thorough":
 		return tierParams{Budget: 15 * time.Minute, K: 6}
 	}
